@@ -9,7 +9,7 @@ import numpy as np
 
 from ..common import V, purity_violations, samples_of, seed_offset
 
-REL = 1e-14
+REL = 1e-13  # facade vs stand-alone correlation (behind an iterative root find for the gas methods)
 
 
 def fluids(seed):
@@ -46,12 +46,34 @@ def eval_facade(case):
         "pressure_bubblepoint": (lambda: fl.pressure_bubblepoint(), pb),
     }
     viol = []
+    attrs0 = (fl.temperature, fl.api_gravity, fl.gas_specific_gravity, fl.solution_gor_initial, fl.salinity)
     for name, (call, want) in pairs.items():
         got = call()
+        got2 = call()  # a second call on the same object: same answer, object untouched
+        if not rel_eq(got2, got, 0):
+            viol.append(V(f"facade-repeat/{name}", f"Fluid.{name} called twice on the same object gives two different answers",
+                          case=case))
         if not rel_eq(got, want):
             viol.append(V(f"facade/{name}", f"Fluid.{name} = {np.asarray(got).tolist()} but the stand-alone correlation "
                           f"with the object's T={T}, api={api}, gravity={g}, GOR={gor}, salinity={sal} gives "
                           f"{np.asarray(want).tolist()}", case=case, tol=REL))
+    if (fl.temperature, fl.api_gravity, fl.gas_specific_gravity, fl.solution_gor_initial, fl.salinity) != attrs0:
+        viol.append(V("facade/attributes-modified", f"using the methods changed the object's attributes from {attrs0} to "
+                      f"{(fl.temperature, fl.api_gravity, fl.gas_specific_gravity, fl.solution_gor_initial, fl.salinity)}", case=case))
+    # scalar pressures (Python float and 0-d array) for the methods that accept them
+    for name, fn, ref in (("oil_FVF", fl.oil_FVF, lambda q: oil.b_o_Standing(T, q, api, g, gor)),
+                          ("oil_viscosity", fl.oil_viscosity, lambda q: oil.viscosity_beggs_robinson(T, q, api, g, gor)),
+                          ("water_viscosity", fl.water_viscosity, lambda q: water.viscosity_water_McCain(T, q, sal))):
+        for q in (float(p[5]), float(p[8]), np.array(float(p[9]))):
+            try:
+                got = np.asarray(fn(q), dtype=float)
+            except Exception as e:  # noqa: BLE001
+                viol.append(V(f"facade-scalar/{name}", f"Fluid.{name}({q!r}) raises {type(e).__name__}: {e}", case=case))
+                break
+            if got.shape != () or not rel_eq(got, ref(float(q))):
+                viol.append(V(f"facade-scalar/{name}", f"Fluid.{name}({q!r}) = {got.tolist()!r}; stand-alone correlation gives "
+                              f"{float(ref(float(q)))!r}", case=case))
+                break
     # the same methods on a shuffled pressure array with repeats: values belong to their own positions
     order = [6, 3, 8, 3, 5, 9, 5, 0, 11]
     p_sh = p[order]
@@ -71,14 +93,16 @@ def eval_facade(case):
                           "do not belong to their positions", case=case))
     # history: the object's public attributes are reassigned one at a time on the SAME object (after the
     # calls above); every method must follow the object's *current* attributes
+    expect = {"temperature": T, "api_gravity": api, "gas_specific_gravity": g, "solution_gor_initial": gor, "salinity": sal}
     for attr, new in (("temperature", T + 85.0), ("api_gravity", api + 6.0), ("gas_specific_gravity", g + 0.11),
                       ("solution_gor_initial", gor * 1.4), ("salinity", sal + 4.0)):
         try:
             setattr(fl, attr, new)
         except (AttributeError, TypeError):  # an immutable (frozen) Fluid cannot have a reassignment history
             break
-        T2, api2, g2, gor2, sal2 = (fl.temperature, fl.api_gravity, fl.gas_specific_gravity,
-                                    fl.solution_gor_initial, fl.salinity)
+        expect[attr] = new  # (the references come from what was assigned, not from what the object now says)
+        T2, api2, g2, gor2, sal2 = (expect["temperature"], expect["api_gravity"], expect["gas_specific_gravity"],
+                                    expect["solution_gor_initial"], expect["salinity"])
         wants = {
             "water_FVF": [water.b_water_McCain(T2, q) for q in p],
             "water_viscosity": [water.viscosity_water_McCain(T2, q, sal2) for q in p],
@@ -96,10 +120,10 @@ def eval_facade(case):
                               f"with the object's current attributes gives {np.asarray(wants[name]).ravel()[:3].tolist()}...",
                               case=dict(case, reassigned=attr), tol=REL))
                 break
-    T, api, g, gor, sal = fl.temperature, fl.api_gravity, fl.gas_specific_gravity, fl.solution_gor_initial, fl.salinity
-    # the object's attributes are not modified by use
-    if (fl.temperature, fl.api_gravity, fl.gas_specific_gravity, fl.solution_gor_initial, fl.salinity) != (T, api, g, gor, sal):
-        viol.append(V("facade/attributes-modified", "Fluid attributes changed after method calls", case=case))
+    now = (fl.temperature, fl.api_gravity, fl.gas_specific_gravity, fl.solution_gor_initial, fl.salinity)
+    if now != tuple(expect[k] for k in ("temperature", "api_gravity", "gas_specific_gravity", "solution_gor_initial", "salinity")):
+        viol.append(V("facade/attributes-modified", f"Fluid attributes after the reassignments are {now}, not what was assigned",
+                      case=case))
     return {"violations": viol, "evals": len(pairs), "outcome": "facade", "key": ("f", T, tpc)}
 
 
@@ -208,19 +232,21 @@ def eval_sutton(case):
         try:
             gas.pseudocritical_point_Sutton(g, nh, bad)
             viol.append(V("sutton/unknown-type-accepted", f"fluid type {bad!r} was accepted", case=case))
-        except ValueError:
+        except Exception:  # noqa: BLE001 - "rejected", whatever the error type
             pass
-        except Exception as e:  # noqa: BLE001
-            viol.append(V("sutton/unknown-type-wrong-exception", f"fluid type {bad!r}: {type(e).__name__}", case=case))
     from bluebonnet.fluids import build_pvt_gas  # noqa: PLC0415
 
     try:
         build_pvt_gas(gas_values(dict(case, T=200.0)), "oil", maximum_pressure=50)
         viol.append(V("table/unknown-type-accepted", "build_pvt_gas accepted fluid type 'oil'", case=case))
-    except ValueError:
+    except Exception:  # noqa: BLE001
         pass
-    except Exception as e:  # noqa: BLE001
-        viol.append(V("table/unknown-type-wrong-exception", f"build_pvt_gas('oil'): {type(e).__name__}", case=case))
+    for bad in ("dry gas ", "dry-gas", "gas", ""):  # the builder itself, not only the Sutton function
+        try:
+            build_pvt_gas(gas_values(dict(case, T=200.0)), bad, maximum_pressure=50)
+            viol.append(V("table/unknown-type-accepted", f"build_pvt_gas accepted fluid type {bad!r}", case=case))
+        except Exception:  # noqa: BLE001
+            pass
     return {"violations": viol, "evals": 3, "outcome": "sutton", "key": ("s", g, tuple(cont), dry)}
 
 
